@@ -54,7 +54,7 @@ def gen_filter_case(rng, tier, R, Q, channel=2, lorch=False, omitted=False):
     return {"R": R, "Q": Q, "r": r, "gr": gin.tolist(), "q": q, "y": yin.tolist(),
             "dgr": None if dgin is None else dgin.tolist(), "dy": None if dyin is None else dyin.tolist(),
             "cutoff": cutoff, "mat": mat, "lorch": lorch, "omitted": omitted, "channel": channel,
-            "unc_form": rng.choice(["array", "array", "list"]),
+            "unc_form": rng.choice(["array", "array", "list"]), "unc_kw": (n_r + n_q) % 2 == 1,
             "common": {"g": g, "f": f, "dg": dg, "df": df},
             "desc": {"variant": "%s_using_%s" % (L.GN[R], L.RN[Q]), "n_r": n_r, "n_q": n_q, "cutoff": mode,
                      "dgr": uk1, "dy": uk2, "r0_is_0": r[0] == 0.0, "lorch": lorch, "omitted": omitted}}
@@ -82,8 +82,18 @@ def call_filter(pystog, case, R=None, Q=None, gr=None, y=None, dgr="same", dy="s
     ub = None if b is None else np.array(b, float)
     if case.get("unc_form") == "list":      # "numpy.array or list"
         ua, ub = (None if ua is None else ua.tolist()), (None if ub is None else ub.tolist())
-    out = f(np.array(case["r"], np.float32 if case.get("r_f32") else float), np.array(case["gr"] if gr is None else gr, float), np.array(case["q"], float),
-            np.array(case["y"] if y is None else y, float), case["cutoff"], ua, ub, **kw)
+    rr_ = np.array(case["r"], np.float32 if case.get("r_f32") else float)
+    if case.get("unc_kw"):      # the uncertainties (and the cutoff) by their documented keywords
+        names = {"F": "dfq", "S": "dsq", "FK": "dfq", "DCS": "ddcs"}
+        kw2 = dict(kw, cutoff=case["cutoff"])
+        if ua is not None:
+            kw2["dgr"] = ua
+        if ub is not None:
+            kw2[names[L.RN[Q]]] = ub
+        out = f(rr_, np.array(case["gr"] if gr is None else gr, float), np.array(case["q"], float), np.array(case["y"] if y is None else y, float), **kw2)
+    else:
+        out = f(rr_, np.array(case["gr"] if gr is None else gr, float), np.array(case["q"], float),
+                np.array(case["y"] if y is None else y, float), case["cutoff"], ua, ub, **kw)
     return [None if o is None else np.asarray(o, float) for o in out]
 
 
